@@ -122,3 +122,26 @@ Theorem C08_classical_finish_refuted :
                value_of ML_cfol st (SPred PIdentity [PC 1; PC 0]) 0 = Val VF.
 Proof. exact classical_finish_refuted. Qed.
 Print Assumptions C08_classical_finish_refuted.
+
+(* ... and holds for the repaired completion (fixes/c08-identity.diff), for every order of
+   the constants and of the predicates: identity becomes an equivalence, every
+   predicate's extension respects it, existence is universal *)
+From PT Require Import Sem.ClassicalFixProofs.
+Theorem C08_classical_finish_repaired cord pord st st' :
+  tuples_ok st -> id_binary st ->
+  (forall c, In c cord <-> In c (s_consts st)) -> pord_covers pord st ->
+  cl_complete_fixed cord pord st = Some st' ->
+  (forall w, In w (s_fkeys st) -> frame_classical st' w) /\
+  s_fkeys st' = s_fkeys st /\ s_consts st' = s_consts st /\ tuples_ok st' /\ id_binary st'.
+Proof. exact (classical_finish_repaired cord pord st st'). Qed.
+Print Assumptions C08_classical_finish_repaired.
+
+Theorem C08_finish_fixed_classical L cord pord st st1 st' :
+  ml_classical L = true -> complete_frames L st = Some st1 ->
+  tuples_ok st1 -> id_binary st1 ->
+  (forall c, In c cord <-> In c (s_consts st1)) -> pord_covers pord st1 ->
+  finish_fixed L cord pord st = Some st' ->
+  (forall w, In w (s_fkeys st') -> frame_classical st' w) /\
+  s_finished st' = true /\ s_fkeys st' = s_fkeys st1 /\ s_consts st' = s_consts st1.
+Proof. exact (finish_fixed_classical L cord pord st st1 st'). Qed.
+Print Assumptions C08_finish_fixed_classical.
